@@ -329,6 +329,23 @@ func checkC20(p *core.Program, r *core.Report) {
 		}
 		return true, ""
 	}
+	// collectors kept in a small struct built by a constructor (routeMetrics): read the field out of the record
+	viaRecord := func(t *tf.Term) *tf.Term {
+		if t == nil {
+			return nil
+		}
+		return tf.Subst(t, func(x *tf.Term) *tf.Term {
+			if x.K == tf.KField && len(x.Args) == 1 && x.Args[0].K == tf.KAlloc {
+				if rec := hev.Deref(x.Args[0]); rec != nil && rec.K == tf.KRecord {
+					if f := rec.FieldOf(x.Name); f != nil {
+						return f
+					}
+				}
+			}
+			return nil
+		})
+	}
+	inflightColl, counterColl = viaRecord(inflightColl), viaRecord(counterColl)
 	okG, whyG := collectorOK(inflightColl, "NewGauge", "http_requests_in_flight", nil)
 	r.Check(okG, "O20.3", typeKey(muxN)+".Handle: in-flight gauge", p.Pos(handleFn.Pos()), "gauge http_requests_in_flight registered on the mux's registry", whyG)
 	okC, whyC := collectorOK(counterColl, "NewCounterVec", "http_requests_total", []string{"code", "method"})
